@@ -190,7 +190,12 @@ func (f *frame) stdlib(i *ssa.Call, full string, args []T, st *State, pc string)
 							g.s.decls[decl] = true
 							g.s.lines = append(g.s.lines, decl)
 						}
-						return []T{g.s.def(i.Name(), T{"(mk false " + app(fn, as...) + ")", "NB"})}, pc, true
+						r := g.s.def(i.Name(), T{"(mk false " + app(fn, as...) + ")", "NB"})
+						if constant.StringVal(c.Value) == "%d" && n == 1 {
+							// %d of an integer value is its decimal rendering (T-STD)
+							g.s.assumeUnder(pc, imp("((_ is AInt) "+as[0]+")", eq("(val "+r.S+")", "(itoa (a.i "+as[0]+"))")))
+						}
+						return []T{r}, pc, true
 					}
 				}
 			}
